@@ -176,7 +176,7 @@ theorem skipped_overlay_leaves_no_trace (ev : Env → ε → JVal) (env : Env) (
     · exact Or.inl hm
     · exact Or.inr (Or.inr hm)
   rw [materialise_is_fold ev env template forced _ h hf, materialise_is_fold ev env template forced _ h' hf]
-  simp [active, List.filter_append, List.filter_cons, hs]
+  simp [active, List.filter_append, hs]
 
 /-- the created object's view: optional `create.overlay` deep-merged over the target, forced
     overlay on top -/
@@ -234,6 +234,17 @@ def exBase : Fields :=
 
 def exEnv : Env := [("inputs", .obj [("x", .obj [("computed", .str "map")])])]
 
+/-- a small oracle for the examples: the handful of expressions they use, as paths into the activation -/
+def exEv (env : Env) : JVal → JVal
+  | .str "=inputs.x" => lookupPath (.obj env) ["inputs", "x"]
+  | .str "=inputs.skip" => lookupPath (.obj env) ["inputs", "skip"]
+  | .str "=inputs.v" => lookupPath (.obj env) ["inputs", "v"]
+  | .str "=locals.l" => lookupPath (.obj env) ["locals", "l"]
+  | .str "=resource.metadata.name" => lookupPath (.obj env) ["resource", "metadata", "name"]
+  | .obj [("v", .str "=inputs.v")] => .obj [("v", lookupPath (.obj env) ["inputs", "v"])]
+  | .obj [("l", .str "=inputs.v")] => .obj [("l", lookupPath (.obj env) ["inputs", "v"])]
+  | v => v
+
 -- the hypotheses are met by a three-level overlay with siblings, an empty map and a list as leaves
 example : WFO exSpec := by
   simp [exSpec, exOverlay, OSpec.ofFields, OSpec.ofJVal, WFO, OSpec.WF, keysO]
@@ -245,27 +256,25 @@ example : positionsO (indexO exSpec 0).1 = [0, 1, 2, 3, 4, 5] := by decide
 example : (indexO exSpec 0).1 =
     [("metadata", .sub [("labels", .sub [("a", .pos 0), ("b", .pos 1)]), ("name", .pos 2)]),
      ("spec", .sub [("replicas", .pos 3), ("sel", .pos 4)]),
-     ("data", .pos 5)] := by decide
+     ("data", .pos 5)] := by rfl
 
 -- the compiled applier and the specification agree on it, and give the expected document:
 -- computed map replaces, existing keys are kept, a non-map base value is replaced by a fresh map
-example : (evalOverlay evalWritten exEnv exBase exSpec ==
+example : evalOverlay exEv exEnv exBase exSpec =
     [("metadata", .obj [("labels", .obj [("z", .int 0), ("a", .obj [("computed", .str "map")]), ("b", .int 2)]),
                         ("uid", .str "u"), ("name", .str "n")]),
      ("spec", .obj [("replicas", .int 3), ("sel", .obj [])]),
      ("keep", .bool true),
-     ("data", .arr [.int 1])]) = true := by decide
-example : (evalOverlay evalWritten exEnv exBase exSpec ==
-    deepMerge exBase (evalTree evalWritten exEnv exBase exSpec)) = true := by decide
+     ("data", .arr [.int 1])] := by rfl
+example : evalOverlay exEv exEnv exBase exSpec = deepMerge exBase (evalTree exEv exEnv exBase exSpec) := by rfl
 
 -- the distinct-keys hypothesis cannot be dropped: with a repeated key (impossible in a Python dict)
 -- the applier, which reads the *original* base, and the sequential merge differ
 def dupSpec : List (String × OSpec JVal) :=
   [("k", .node [("a", .leaf (.int 1))]), ("k", .node [("b", .leaf (.int 2))])]
 example : ¬ WFO dupSpec := by simp [dupSpec, WFO, keysO]
-example : (applier [] (indexO dupSpec 0).1 ((indexO dupSpec 0).2.map id) ==
-    [("k", .obj [("b", .int 2)])]) = true := by decide
-example : (deepMerge [] (mapO id dupSpec) == [("k", .obj [("a", .int 1), ("b", .int 2)])]) = true := by decide
+example : applier [] (indexO dupSpec 0).1 ((indexO dupSpec 0).2.map id) = [("k", .obj [("b", .int 2)])] := by rfl
+example : deepMerge [] (mapO id dupSpec) = [("k", .obj [("a", .int 1), ("b", .int 2)])] := by rfl
 
 -- pipeline: template, one active overlay that attacks the identity, one skipped overlay, one
 -- ValueFunction overlay reading `resource`; the forced overlay wins and the skipped one leaves no trace
@@ -281,11 +290,14 @@ def exRfEnv : Env := [("inputs", .obj [("skip", .bool true), ("v", .int 7)])]
 example : ∀ s ∈ exSteps, WFO s.spec := by
   simp [exSteps, Step.spec, OSpec.ofFields, OSpec.ofJVal, WFO, OSpec.WF, keysO]
 
-example : (materialise evalWritten exRfEnv [("data", .obj [("k", .str "v")])] exForced exSteps ==
+example : materialise exEv exRfEnv [("data", .obj [("k", .str "v")])] exForced exSteps =
     [("data", .obj [("k", .str "v"), ("fromVf", .int 7), ("seen", .str "evil")]),
      ("apiVersion", .str "v1"), ("kind", .str "ConfigMap"),
-     ("metadata", .obj [("name", .str "cm"), ("namespace", .str "ns"), ("labels", .obj [("a", .int 1)])])]) = true := by
-  decide
+     ("metadata", .obj [("name", .str "cm"), ("namespace", .str "ns"), ("labels", .obj [("a", .int 1)])])] := by
+  rfl
+-- … and the hypotheses of `skipped_overlay_leaves_no_trace` are met by the second step
+example : skipped exEv exRfEnv (exSteps[1]) = true := by rfl
+example : active exEv exRfEnv exSteps = [exSteps[0], exSteps[2]] := by rfl
 
 end examples
 
